@@ -100,7 +100,8 @@ def run(ck):
     ck.sample({"behaviour": [(s["op"], s["args"]) for s in s1[0]["hist"][:14]]})
     with open(tr) as f:
         ck.sample({"first_records": [json.loads(next(f)) for _ in range(5)]})
-    ck.assumptions += ["one model tick is one second; frame times are whole seconds, so the 100 ms thresholds (minimum segment, audio delay) are 'below one tick'",
+    ck.assumptions += ["behaviours start at source times 0, 2^33 - 5 s, 2^63/10^9 - 3 s and nine days (90 kHz ticks, rounded to multiples of 9 so that the nanosecond times are exact); the generator's open segment is given that start through the verif-only export VerifStartAt instead of streaming for that long",
+                       "one model tick is one second; frame times are whole seconds, so the 100 ms thresholds (minimum segment, audio delay) are 'below one tick'",
                        "input assumption: a non-key video frame follows the previous video frame within two fragment lengths (video restarts with a key frame after an audio-only gap); time stamps never go backwards",
                        "audio PTS inside HLS segments is compared with a 100 ms tolerance: hlsAacJitter re-stamps AAC on purpose",
                        "freshness of the window is a verdict in disk mode (the open file's number is visible) and at quiescence over HTTP; in memory mode it is covered by the model-drift comparison only",
